@@ -113,6 +113,11 @@ def check(ctx):
                 ctx.violation("range-step:" + text, text, str(want)[:200], real_ans(k, v)[:200], "execute(%r)" % text)
             elif exact and [Fraction(x) for x in v.contents] != want:
                 ctx.violation("range-step:" + text, text, str(want)[:200], real_ans(k, v)[:200], "execute(%r)" % text)
+            elif exact and any(isinstance(x, bool) or isinstance(x, float) or (isinstance(x, Fraction) and x.denominator == 1) for x in v.contents):
+                # every value Ka delivers is canonical (an integral value IS an int): an element that is Fraction(2, 1) is refused
+                # by `!`, `C`, `..` although it is the integer 2
+                bad_ = next(x for x in v.contents if isinstance(x, (bool, float)) or (isinstance(x, Fraction) and x.denominator == 1))
+                ctx.violation("range-step-kind:" + text, text, "integral elements delivered as integers", "element %r" % (bad_,), "execute(%r)" % text)
             elif not exact and (abs(len(v.contents) - len(want)) > 1 or any(abs(float(a) - float(b)) > 1e-9 for a, b in zip(v.contents, want))):
                 ctx.violation("range-step:" + text, text, str(want)[:200], real_ans(k, v)[:200], "execute(%r)" % text)
         if exact:
